@@ -140,6 +140,7 @@ class Proc:
         self.wait_status = None  # status word reaped by waitpid when set
         self.ioprio = (0, 4)  # (class, data)
         self.affinity = None  # set of cpus; None => all
+        self.cpuset = None  # CPUs the task may ever use; None => all
         self.cpus_allowed_list = None  # text override
         self.rlimits = {}
         self.unreadable = set()  # file names refused with EACCES
@@ -1258,7 +1259,9 @@ class SimCext:
                 raise ValueError("invalid CPU value")
             if c > 2**31 - 1:
                 raise OverflowError("Python int too large to convert to C long")
-        eff = set(cpus) & set(range(k.ncpus))
+        # kernel: requested mask AND the CPUs the task may use (cpuset)
+        allowed = set(range(k.ncpus)) if p.cpuset is None else set(p.cpuset)
+        eff = set(cpus) & allowed
         if not eff:
             raise oserr(errno.EINVAL)
         k.setcalls.append(("sched_setaffinity", pid, tuple(cpus), p.inc))
